@@ -248,6 +248,14 @@ func ringIntersectsSegment(ring Ring, seg Segment, allowOnEdge bool) bool {
 	if !seg.Rect().IntersectsRect(ring.Rect()) { // Optimization
 		return false
 	}
+	if !allowOnEdge {
+		// the segment must have a piece that is inside of the ring, just
+		// touching the edge of the ring is not enough.
+		inside, _ := ringSegmentSides(ring, seg,
+			ringContainsPoint(ring, seg.A, true),
+			ringContainsPoint(ring, seg.B, true))
+		return inside
+	}
 	// Quick check that either point is inside of the ring
 	if ringContainsPoint(ring, seg.A, allowOnEdge).hit {
 		return true
@@ -259,31 +267,9 @@ func ringIntersectsSegment(ring Ring, seg Segment, allowOnEdge bool) bool {
 	// are on the outside and are passing over segments. If the segment passes
 	// over at least two ring segments then it's intersecting.
 	var count int
-	var segAOn bool
-	var segBOn bool
 	ring.Search(seg.Rect(), func(seg2 Segment, index int) bool {
 		if seg.IntersectsSegment(seg2) {
-			if !allowOnEdge {
-				// for segments that are not allowed on the edge, extra care
-				// must be taken.
-				if !(seg.CollinearPoint(seg2.A) && seg.CollinearPoint(seg2.B)) {
-					if !segAOn {
-						if seg.A == seg2.A || seg.A == seg2.B {
-							segAOn = true
-							return true
-						}
-					}
-					if !segBOn {
-						if seg.B == seg2.A || seg.B == seg2.B {
-							segBOn = true
-							return true
-						}
-					}
-					count++
-				}
-			} else {
-				count++
-			}
+			count++
 		}
 		return count < 2
 	})
